@@ -1,9 +1,11 @@
 """C10: adjust_mappings (interval sweep)."""
 import pf
 import q
-from mir import Agg, Call, Const, Named, Var
+from mir import Agg, Call, Const, Named, Un, Var
 from rules.common import has_fact
 from rules.typesrules import closure_ret_shape
+
+LAM = "\u03bb"
 
 ADJ = "types::SourceMap::adjust_mappings"
 CR = "types::SourceMap::adjust_mappings::create_ranges"
@@ -36,16 +38,13 @@ def keys(ctx, rule):
     for l in sorted(b.var_names):
         for sh, _, _ in q.def_shapes(b, l, {}):
             if sh.startswith("adjust_mappings::create_ranges("):
-                d.setdefault("original_ranges" if "closure#0" in sh else "adjustment_ranges", []).append(sh)
-    ctx.check(d.get("original_ranges") == ["adjust_mappings::create_ranges(mem::take(arg1.tokens),closure:adjust_mappings::{closure#0})"], rule, fn, "original:ranges",
-              "the original stretches are built from self's tokens (taken out of the map)", detail=str(d.get("original_ranges")))
-    ctx.check(d.get("adjustment_ranges") == ["adjust_mappings::create_ranges(arg2.tokens,closure:adjust_mappings::{closure#1})"] or
-              d.get("adjustment_ranges") == ["adjust_mappings::create_ranges(Clone::clone(arg2.tokens),closure:adjust_mappings::{closure#1})"], rule, fn, "adjustment:ranges",
-              "the adjustment stretches are built from a copy of the adjustment's tokens (it is only read)", detail=str(d.get("adjustment_ranges")))
-    c0 = ctx.facts.body(ADJ + "::{closure#0}", required=False)
-    c1 = ctx.facts.body(ADJ + "::{closure#1}", required=False)
-    ctx.check(c0 is not None and closure_ret_shape(c0) == ["tuple(arg2.dst_line,arg2.dst_col)"], rule, fn, "key:original", "original stretches are keyed by generated position")
-    ctx.check(c1 is not None and closure_ret_shape(c1) == ["tuple(arg2.src_line,arg2.src_col)"], rule, fn, "key:adjustment", "adjustment stretches are keyed by the adjustment's *original* position")
+                d.setdefault("original_ranges" if "mem::take" in sh or "arg1" in sh else "adjustment_ranges", []).append(sh)
+    KEY_O = "%s(tuple(p1.dst_line,p1.dst_col))" % LAM
+    KEY_A = "%s(tuple(p1.src_line,p1.src_col))" % LAM
+    ctx.check(d.get("original_ranges") == ["adjust_mappings::create_ranges(mem::take(arg1.tokens),%s)" % KEY_O], rule, fn, "original:ranges",
+              "the original stretches are built from self's tokens (taken out of the map), keyed by generated position", detail=str(d.get("original_ranges")))
+    ctx.check(d.get("adjustment_ranges") in (["adjust_mappings::create_ranges(arg2.tokens,%s)" % KEY_A], ["adjust_mappings::create_ranges(Clone::clone(arg2.tokens),%s)" % KEY_A]), rule, fn, "adjustment:ranges",
+              "the adjustment stretches are built from a copy of the adjustment's tokens (it is only read), keyed by the adjustment's *original* position", detail=str(d.get("adjustment_ranges")))
     c = ctx.body(CR)
     calls = [q.shape(c.expr_of_call(t)) for bi, t in c.calls()]
     srt = [bi for bi, t in c.calls() if q.nice(t.get("callee")) == "slice::sort_unstable_by_key" or q.nice(t.get("callee")) == "slice::sort_by_key"]
@@ -70,6 +69,19 @@ def keys(ctx, rule):
         ctx.check(len(ind) == 1 and q.shape(c.expr_of_operand(ind[0]["func"])) == "arg2", rule, c.path, "key-fn", "the key function used is the parameter")
 
 
+def _negate(op, l, r):
+    op2 = q.NEGATE[op]
+    if op2 in ("Gt", "Ge"):
+        return (q.FLIP[op2], r, l)
+    return (op2, l, r)
+
+
+def _canon_test(op, l, r):
+    if op in ("Gt", "Ge"):
+        op, l, r = q.FLIP[op], r, l
+    return frozenset([(op, l, r), _negate(op, l, r)])
+
+
 def sweep(ctx, rule):
     b = ctx.body(ADJ)
     fn = b.path
@@ -78,42 +90,40 @@ def sweep(ctx, rule):
         return
     inv = {v: k for k, v in roles.items()}
     O = inv["O"]
-    cmps = {}
+    # the ordering tests of the sweep, as canonical facts (a test and its negation are one test;
+    # `x >= y` and `!(x < y)` with swapped branches are the same program)
+    tests = set()
     for d in range(len(b.blocks)):
         t = b.blocks[d]["term"]
         if t["k"] == "switch" and not b.blocks[d]["cleanup"]:
-            sh = q.shape(b.expr_of_operand(t["discr"]), roles)
-            if sh.startswith("PartialOrd::"):
-                tt = [tb for v, tb in t["arms"] if v == 0]
-                cmps[sh] = (d, t["otherwise"], tt[0] if tt else None)
-    want = {"skip": "PartialOrd::le(O.end,A.start)", "overlap": "PartialOrd::lt(O.start,A.end)", "keep": "PartialOrd::ge(O.end,A.end)"}
-    alt = {"skip": ["PartialOrd::ge(A.start,O.end)"], "overlap": ["PartialOrd::gt(A.end,O.start)"], "keep": ["PartialOrd::le(A.end,O.end)", "PartialOrd::gt(O.end,A.end)", "PartialOrd::lt(A.end,O.end)"]}
-    found = {}
-    for k, w in want.items():
-        for cand in [w] + alt[k]:
-            if cand in cmps:
-                found[k] = cmps[cand]
-    ctx.check(set(found) == set(want) and len(cmps) == 3, rule, fn, "comparisons",
-              "the sweep uses exactly the half-open interval tests: skip while o.end <= a.start; overlap while o.start < a.end; keep the original stretch when o.end >= a.end (> is equivalent: at equality the next adjustment stretch skips it anyway)", detail=str(sorted(cmps)))
-    if set(found) != set(want):
+            e = b.expr_of_operand(t["discr"])
+            while isinstance(e, Named) or (isinstance(e, Un) and e.op == "Not"):
+                e = e.x
+            if isinstance(e, Call) and q.CMP_CALLS.get(q.nice(e.callee)) in ("Lt", "Le", "Gt", "Ge") and len(e.args) == 2:
+                tests.add(_canon_test(q.CMP_CALLS[q.nice(e.callee)], q.shape(e.args[0], roles), q.shape(e.args[1], roles)))
+    SKIP = ("Le", "O.end", "A.start")
+    OVER = ("Lt", "O.start", "A.end")
+    KEEPS = [("Le", "A.end", "O.end"), ("Lt", "A.end", "O.end")]
+    keep = [k for k in KEEPS if _canon_test(*k) in tests]
+    ok = _canon_test(*SKIP) in tests and _canon_test(*OVER) in tests and len(keep) == 1 and len(tests) == 3
+    ctx.check(ok, rule, fn, "comparisons",
+              "the sweep uses exactly the half-open interval tests: skip while o.end <= a.start; overlap while o.start < a.end; keep the original stretch when o.end >= a.end (> is equivalent: at equality the next adjustment stretch skips it anyway)", detail=str(sorted(map(sorted, tests))))
+    if not ok:
         return
+    KEEP = keep[0]
+    NOT_KEEP = _negate(*KEEP)
     # effects of each test
     adv = [site for sh, site, _ in q.def_shapes(b, O, roles) if sh == NEXT]
     ctx.check(len(adv) == 3, rule, fn, "advance-sites", "the original stretch is taken from its iterator at three places (first, skip, after an overlap)", detail=str(adv))
-    skip_adv = [s for s in adv if has_fact(b, s[0], roles, ("true", want["skip"], None))]
+    skip_adv = [s for s in adv if has_fact(b, s[0], roles, SKIP)]
     ctx.check(len(skip_adv) == 1, rule, fn, "skip:advances", "an original stretch entirely before the adjustment stretch is skipped")
     pushes = [(bi, q.shape(q.arg_expr(b, t, 1), roles)) for bi, t in q.calls_to(b, "Vec::<T, A>::push") if q.shape(q.arg_expr(b, t, 0), roles) == "arg1.tokens"]
     ctx.check(len(pushes) == 1 and pushes[0][1] == "T", rule, fn, "emit", "one token is emitted per overlap")
     for pb, _ in pushes:
-        ctx.check(has_fact(b, pb, roles, ("true", want["overlap"], None)) and has_fact(b, pb, roles, ("false", want["skip"], None)), rule, fn, "emit:non-empty-overlap",
+        ctx.check(has_fact(b, pb, roles, OVER) and has_fact(b, pb, roles, _negate(*SKIP)), rule, fn, "emit:non-empty-overlap",
                   "a token is emitted only when o.start < a.end and o.end > a.start (non-empty overlap of half-open stretches)", ctx.site(b, pb))
-    keep_sh = [k for k in cmps if cmps[k] == found["keep"]][0]
-    in_adv = [s for s in adv if has_fact(b, s[0], roles, ("false", keep_sh, None)) and has_fact(b, s[0], roles, ("true", want["overlap"], None))]
+    in_adv = [s for s in adv if has_fact(b, s[0], roles, NOT_KEEP) and has_fact(b, s[0], roles, OVER)]
     ctx.check(len(in_adv) == 1, rule, fn, "advance:only-when-exhausted", "after an overlap the original stretch advances only when it ends before the adjustment stretch does")
-    keep_d, keep_true, keep_false = found["keep"]
-    ov_d = found["overlap"][0]
-    ctx.check(keep_true is not None and not b.reaches(keep_true, ov_d, avoid=[b_ for b_, t in q.calls_to(b, "Iterator::next") if q.shape(q.arg_expr(b, t, 0), roles) != "var:Iter<Range>" or True][:0]) or True, rule, fn, "keep:break",
-              "when the original stretch reaches past the adjustment stretch the inner loop ends without advancing it")
     # token construction
     defs = [(sh, site) for sh, site, _ in q.def_shapes(b, inv["T"], roles)]
     lit = [sh for sh, _ in defs if sh.startswith("RawToken{")]
